@@ -122,6 +122,27 @@ type res struct {
 	rd, wk, wa         string
 	rdH                *keyset.Handle
 	u                  bool
+	importViolation    string
+}
+
+// noSecretsHandle: a handle returned by a no-secrets reader can always be
+// written by WriteWithNoSecrets and holds no key whose serializer writes
+// symmetric, private or unknown material.
+func (r *res) noSecretsHandle(h *keyset.Handle, err error, api string) {
+	if err != nil || h == nil || r.importViolation != "" {
+		return
+	}
+	var wb bytes.Buffer
+	if werr := h.WriteWithNoSecrets(keyset.NewBinaryWriter(&wb)); werr != nil {
+		r.importViolation = "nosecrets-import: " + api + " returned a handle that WriteWithNoSecrets refuses to write: " + werr.Error()
+		return
+	}
+	for _, k := range insecurecleartextkeyset.KeysetMaterial(h).GetKey() {
+		if m := k.GetKeyData().GetKeyMaterialType(); !freeOfSecrets(m) {
+			r.importViolation = fmt.Sprintf("nosecrets-import: %s returned a handle holding a key (%s) whose serializer writes material type %v", api, k.GetKeyData().GetTypeUrl(), m)
+			return
+		}
+	}
 }
 
 func flip(b []byte) []byte {
@@ -142,12 +163,15 @@ func execute(in string) *res {
 	r.u = anyUnmodelled5(ks)
 	h, err := insecurecleartextkeyset.Read(keyset.NewBinaryReader(bytes.NewReader(bin)))
 	r.c, r.h = okErr(err), h
-	_, err = keyset.NewHandleWithNoSecrets(proto.Clone(ks).(*tinkpb.Keyset))
+	hn, err := keyset.NewHandleWithNoSecrets(proto.Clone(ks).(*tinkpb.Keyset))
 	r.n = okErr(err)
-	_, err = keyset.ReadWithNoSecrets(keyset.NewBinaryReader(bytes.NewReader(bin)))
+	r.noSecretsHandle(hn, err, "NewHandleWithNoSecrets")
+	hn, err = keyset.ReadWithNoSecrets(keyset.NewBinaryReader(bytes.NewReader(bin)))
 	r.rn = okErr(err)
-	_, err = keyset.ReadWithNoSecrets(keyset.NewJSONReader(strings.NewReader(c14.JSONKeyset(ks))))
+	r.noSecretsHandle(hn, err, "ReadWithNoSecrets(binary)")
+	hn, err = keyset.ReadWithNoSecrets(keyset.NewJSONReader(strings.NewReader(c14.JSONKeyset(ks))))
 	r.rj = okErr(err)
+	r.noSecretsHandle(hn, err, "ReadWithNoSecrets(json)")
 	if r.c != "ok" {
 		return r
 	}
@@ -421,12 +445,18 @@ func c13Check(in, obs string) string {
 		}
 		values = append(values, kd.GetValue())
 	}
-	// the no-secrets import APIs
+	// the no-secrets import APIs: judged by the label AND by what the keys hold
+	if r.importViolation != "" {
+		return r.importViolation
+	}
 	for name, o := range map[string]string{"NewHandleWithNoSecrets": r.n, "ReadWithNoSecrets(binary)": r.rn, "ReadWithNoSecrets(json)": r.rj} {
 		if labelSecret && o == "ok" {
 			return "nosecrets-material: " + name + " returned a handle for a keyset whose key material type is not ASYMMETRIC_PUBLIC or REMOTE"
 		}
-		if !labelSecret && r.c == "ok" && o != "ok" {
+		if trueSecret && o == "ok" {
+			return "nosecrets-import: " + name + " returned a handle for a keyset holding symmetric or private key material (by key type) labelled public/remote"
+		}
+		if !labelSecret && !trueSecret && r.c == "ok" && o != "ok" {
 			return name + " fails on a public/remote-only keyset that the cleartext reader accepts"
 		}
 	}
@@ -941,6 +971,12 @@ func c13Gen(r *hx.Rng, n int, tier string) []string {
 			}
 			if r.Chance(10) && k.Prefix == 1 {
 				k.Prefix = hx.PickS(r, []uint64{2, 4}) // LEGACY / CRUNCHY
+			}
+			if r.Chance(35) && strings.HasSuffix(k.URL, "MlDsaPublicKey") && !strings.Contains(k.URL, "Jwt") && !strings.Contains(k.URL, "Composite") {
+				k.Prefix = 5 // WITH_ID_REQUIREMENT: ML-DSA variant NoPrefixWithPrehashID (readable since /repo 4b80d2c)
+			}
+			if r.Chance(2) {
+				k.Prefix = 5 // on any other type: the key's parser (or the fallback key) refuses it
 			}
 			if r.Chance(30) && strings.HasSuffix(k.URL, "StreamingKey") {
 				k.Prefix = hx.PickS(r, []uint64{1, 2, 4}) // ignored by the parser, written back as RAW
